@@ -50,6 +50,57 @@ def loop_detect(rep, F, cg):
             '' if ok else '; '.join(why) + ' — a link cycle through another followed link is not detected and traversal does not terminate')
 
 
+def depth_window(rep, F, cg):
+    """min_depth clause of `exactly the entries the options denote`: nothing shallower than min_depth is yielded or deferred"""
+    import re
+    from mir import callee_of
+    from errguard import structural_facts
+    from panics import skey_call
+    R = 'DEPTH-WINDOW'
+    rep.rule(R, 'in EntriesIter::process every site that hands an entry on — the push onto the deferred (contents_first) stack and the Some(Ok(entry)) return — is reached '
+             'only through the false edge of `depth < opts.min_depth`, and `depth` is the length of the iterator stack read BEFORE the entry\'s own iterator is pushed')
+    fn = '<sys::fs::entries::EntriesIter>::process'
+    if fn not in F.bodies:
+        rep.add(R, 'depthwindow:anchor', '%s exists' % fn, False, detail='anchor missing')
+        return
+    B = cg.body(fn)
+    MIN = re.compile(r'^Lt\((.*),[^,]*min_depth\)$')
+    n = 0
+    pushes = [(i, skey_call(B, t)) for i, t in B.calls() if (callee_of(t) or '').endswith('Vec<T, A>>::push')]
+    for i, k in pushes:
+        if 'deferred' not in k:
+            continue
+        n += 1
+        fs = structural_facts(B, i)
+        ok = any(MIN.match(d) and v is False for d, v in fs)
+        rep.add(R, 'depthwindow:defer', 'a directory is deferred only when depth >= min_depth', ok, B.loc(i),
+                '' if ok else 'the push onto the deferred stack (%s) is reached without passing `depth < min_depth == false` (facts: %s): directories shallower than '
+                'min_depth are yielded after their contents' % (k, fs))
+    for i, j, s in B.assigns():
+        if s['place']['l'] == 0 and not s['place']['p'] and s['rv']['k'] == 'aggregate' and s['rv'].get('variant') == 'Some':
+            fs = structural_facts(B, i)
+            if any(v == 'Err' for d, v in fs) or any(d.startswith('any(') and v is True for d, v in fs):
+                continue          # error exits (pre_op / iter_from failed, link loop)
+            n += 1
+            ok = any(MIN.match(d) and v is False for d, v in fs)
+            rep.add(R, 'depthwindow:yield', 'an entry is yielded only when depth >= min_depth', ok, B.loc(i),
+                    '' if ok else 'Some(Ok(entry)) is returned without passing `depth < min_depth == false` (facts: %s)' % (fs,))
+    # depth is read before the push of the entry's own iterator
+    iter_push = [i for i, k in pushes if 'deferred' not in k]
+    lens = []
+    for bi, bj, st in B.assigns():
+        rv = st['rv']
+        if rv['k'] == 'binop' and rv['op'] == 'Lt' and 'min_depth' in str(B.norm_operand(rv['r'])):
+            for o in B.op_origins(rv['l']):
+                if isinstance(o, tuple) and o[0] == 'call' and (callee_of(B.term(o[1])) or '').endswith('Vec<T, A>>::len'):
+                    lens.append(o[1])
+    ok = bool(iter_push) and bool(lens) and all(l not in B.reachable_from(p) for p in iter_push for l in lens)
+    rep.add(R, 'depthwindow:depth-before-push', 'the depth compared with min_depth is read before the entry\'s own iterator is pushed', ok, '%s:%d' % (B.file, B.line),
+            '' if ok else 'the iterator-stack length compared with min_depth (len sites %s) can be evaluated after the push of the entry\'s own iterator (push sites %s): '
+            'directories are judged one level too deep' % (lens, iter_push))
+    rep.floor(R, 'hand-on sites', n, 2)
+
+
 def run(rep, F, ctx):
     A = locks.LockAnalysis(F)
     cg = A.cg
@@ -60,6 +111,10 @@ def run(rep, F, ctx):
     setters.setter(rep, F, cg, {k: v for k, v in t.items() if k.startswith('<sys::fs::entries::Entries>')})
     p_C04.snapshot(rep, F, A)
     loop_detect(rep, F, cg)
+    depth_window(rep, F, cg)
+    import siteguard as _sg
+    _t = engine.load_table('site_guards.json')
+    _sg.site_guard(rep, F, cg, _t, _t['_groups']['C08'])
     return engine.finish(
         rep, 'other', EXPLANATION,
         assumptions=['the builder / chain tables transcribe the documented behaviour of each builder and of the six listing helpers'],
